@@ -741,7 +741,761 @@ def translate(ctx):
                            + km + '\n')
 
 
+
+# =============================================================================================
+# tie 2: correspondence (toy prf)
+
+PRF_IDS = (2, 5, 7)
+INTEG_IDS = (2, 12, 14)
+KEYLENS = (128, 256)
+ENCR_AES_CBC = 12
+
+
+def toy_prf(hlen, key, data):
+    """the same function as KeysRun.toy_prf"""
+    a = 7
+    for b in key:
+        a = (a * 31 + b + 1) % 65521
+    a = (a * 131 + 255) % 65521
+    for b in data:
+        a = (a * 31 + b + 1) % 65521
+    a = (a * 257 + len(key) * 3 + len(data)) % 65521
+    out = bytearray()
+    x = a
+    for _ in range(hlen):
+        x = (x * 75 + 74) % 65537
+        out.append(x % 256)
+    return bytes(out)
+
+
+def exc_name(ex):
+    return ['raise', 'error' if type(ex).__name__ == 'error' else type(ex).__name__]
+
+
+def _fake_self(is_initiator, prf_obj=None):
+    import crypto
+    ns = types.SimpleNamespace(log_debug=lambda m: None, is_initiator=is_initiator, my_crypto=None, peer_crypto=None)
+    if prf_obj is not None:
+        ns.my_crypto = crypto.Crypto(None, None, None, None, prf_obj, None)
+    return ns
+
+
+def _ike_proposal(p, i, e, keylen):
+    from message import Proposal, Transform
+    return Proposal(1, Proposal.Protocol.IKE, b'', [Transform(Transform.Type.ENCR, e, keylen),
+                                                    Transform(Transform.Type.INTEG, i),
+                                                    Transform(Transform.Type.PRF, p),
+                                                    Transform(Transform.Type.DH, 14)])
+
+
+def _child_proposal(proto, i, e, keylen):
+    from message import Proposal, Transform
+    tr = [Transform(Transform.Type.INTEG, i), Transform(Transform.Type.ESN, 0)]
+    if proto == 3:
+        tr.insert(0, Transform(Transform.Type.ENCR, e, keylen))
+    return Proposal(1, proto, b'\x01\x02\x03\x04', tr)
+
+
+def _kr(k):
+    return [None if x is None else bytes(x) for x in k]
+
+
+def _cr(c):
+    return [bytes(c.sk_e), bytes(c.sk_a), bytes(c.sk_p)]
+
+
+def impl_prfplus(p, key, seed, n):
+    import crypto
+    from message import Transform
+    try:
+        return crypto.Prf(Transform(Transform.Type.PRF, p)).prfplus(key, seed, n)
+    except Exception as ex:
+        return exc_name(ex)
+
+
+def impl_ike(p, i, e, keylen, ini, ni, nr, si, sr, g, old):
+    from ikesa import IkeSa
+    try:
+        ns = _fake_self(bool(ini))
+        kr = IkeSa.generate_ike_sa_key_material(ns, _ike_proposal(p, i, e, keylen), ni, nr, si, sr, g, old)
+        return [_kr(kr), _cr(ns.my_crypto), _cr(ns.peer_crypto)]
+    except Exception as ex:
+        return exc_name(ex)
+
+
+def impl_child(p, proto, i, e, keylen, keyseed, skd):
+    import crypto
+    from ikesa import IkeSa
+    from message import Transform
+    try:
+        ns = _fake_self(True, crypto.Prf(Transform(Transform.Type.PRF, p)))
+        return _kr(IkeSa.generate_child_sa_key_material(ns, _child_proposal(proto, i, e, keylen), keyseed, skd))
+    except Exception as ex:
+        return exc_name(ex)
+
+
+def impl_sizes(p, i, e, keylen):
+    import crypto
+    from message import Transform
+    try:
+        prf = crypto.Prf(Transform(Transform.Type.PRF, p))
+        integ = crypto.Integrity(Transform(Transform.Type.INTEG, i))
+        ciph = crypto.Cipher(Transform(Transform.Type.ENCR, e, keylen))
+        return [prf.key_size, prf.hash_size, integ.key_size, integ.hash_size, ciph.key_size, ciph.block_size]
+    except Exception as ex:
+        return exc_name(ex)
+
+
+def rnd_bytes(rng, n):
+    return bytes(rng.getrandbits(8) for _ in range(n))
+
+
+def rnd_nonce(rng):
+    return rnd_bytes(rng, rng.choice((16, 17, 31, 32, 33, 64, 128, 255, 256, rng.randrange(16, 257))))
+
+
+def rnd_secret(rng, n=None):
+    """DH shared secrets are fixed width: leading zero octets must be kept"""
+    n = n or rng.choice((32, 48, 66, 256, 384))
+    z = rng.choice((0, 0, 1, 2, 5))
+    return b'\0' * z + rnd_bytes(rng, n - z)
+
+
+def gen_cases(ctx):
+    """cases for KeysRun.run as (input, kind, python thunk arguments)"""
+    rng = ctx.rng
+    quick = ctx.quick()
+    cases = []
+    # prf+: every output length 0..400 (+ around the 255-block limit) for each PRF
+    lens = list(range(0, 401)) if not quick else sorted(set(list(range(0, 70)) + rng.sample(range(70, 401), 60)))
+    for p in PRF_IDS:
+        hl = {2: 20, 5: 32, 7: 64}[p]
+        extra = [255 * hl - 1, 255 * hl, 255 * hl + 1, 255 * hl + hl] if (p == 2 or not quick) else [255 * hl + 1]
+        for n in lens + extra + [-1]:
+            key = rnd_bytes(rng, rng.choice((0, 1, 20, 32, 64, 100)))
+            seed = rnd_bytes(rng, rng.randrange(0, 80))
+            cases.append((['prfplus', [p, key, seed, n]], 'prfplus', (p, key, seed, n)))
+    cases.append((['prfplus', [3, b'k', b's', 10]], 'prfplus', (3, b'k', b's', 10)))    # unsupported PRF id
+    # IKE_SA keys: all suites x initial/rekey x role
+    reps = 1 if quick else 4
+    for _ in range(reps):
+        for p in PRF_IDS:
+            for i in INTEG_IDS:
+                for kl in KEYLENS:
+                    for rekey in (False, True):
+                        ini = rng.choice((0, 1))
+                        ni, nr = rnd_nonce(rng), rnd_nonce(rng)
+                        si, sr = rnd_bytes(rng, 8), rnd_bytes(rng, 8)
+                        g = rnd_secret(rng)
+                        old = rnd_bytes(rng, {2: 20, 5: 32, 7: 64}[p]) if rekey else None
+                        a = (p, i, ENCR_AES_CBC, kl, ini, ni, nr, si, sr, g, old)
+                        cases.append((['ike', [p, i, ENCR_AES_CBC, kl, ini, 0, ni, nr, si, sr, g, old]], 'ike', a))
+    # quirks and errors: empty old_sk_d counts as "no old SK_d"; unsupported ids; KEY_LEN absent / not an AES size
+    ni, nr, g = rnd_nonce(rng), rnd_nonce(rng), rnd_secret(rng)
+    for (p, i, e, kl, old) in ((5, 12, 12, 256, b''), (1, 12, 12, 256, None), (5, 1, 12, 256, None),
+                               (5, 12, 3, 256, None), (5, 12, 12, None, None), (5, 12, 12, 100, None),
+                               (5, 12, 12, 0, None), (5, 12, 12, 192, None), (7, 14, 12, 512, None)):
+        a = (p, i, e, kl, 1, ni, nr, b'\1' * 8, b'\2' * 8, g, old)
+        cases.append((['ike', [p, i, e, kl, 1, 0, ni, nr, b'\1' * 8, b'\2' * 8, g, old]], 'ike', a))
+    # CHILD_SA keys: ESP x key lengths and AH, with and without a DH secret in the seed
+    for _ in range(reps):
+        for p in PRF_IDS:
+            for i in INTEG_IDS:
+                for proto, kl in ((3, 128), (3, 256), (2, None)):
+                    for pfs in (False, True):
+                        seed = (rnd_secret(rng) if pfs else b'') + rnd_nonce(rng) + rnd_nonce(rng)
+                        skd = rnd_bytes(rng, {2: 20, 5: 32, 7: 64}[p])
+                        a = (p, proto, i, ENCR_AES_CBC, kl, seed, skd)
+                        cases.append((['child', [p, proto, i, ENCR_AES_CBC, kl, 0, seed, b'', None, skd]], 'child', a))
+    for (proto, i, e, kl) in ((3, 12, 12, None), (3, 1, 12, 128), (2, 1, 12, 128), (3, 12, 3, 128), (1, 12, 12, 128)):
+        a = (5, proto, i, e, kl, b'seed' * 8, b'd' * 32)
+        cases.append((['child', [5, proto, i, e, kl, 0, b'seed' * 8, b'', None, b'd' * 32]], 'child', a))
+    # sizes of every suite (and of some the tables do not contain)
+    for p in PRF_IDS + (1, 6):
+        for i in INTEG_IDS + (1, 5):
+            for e, kl in ((12, 128), (12, 192), (12, 256), (12, 512), (12, None), (12, 0), (12, 64), (13, 128)):
+                cases.append((['sizes', [p, i, e, kl]], 'sizes', (p, i, e, kl)))
+    return cases
+
+
+def run_impl(kind, a):
+    import crypto
+    with mock.patch.object(crypto.Prf, 'prf', lambda self, key, data: toy_prf(self.hash_size, key, data)):
+        if kind == 'prfplus':
+            return impl_prfplus(*a)
+        if kind == 'ike':
+            return impl_ike(*a)
+        if kind == 'child':
+            return impl_child(*a)
+        if kind == 'sizes':
+            return impl_sizes(*a)
+    raise ValueError(kind)
+
+
+def handshake_cases(ctx):
+    """Real handshakes (both peers are the real IkeSa) with Prf.prf patched to the toy function: what each call site
+    fed to the key schedule is observed on the wire / at the DH objects and given to the model's call-site functions."""
+    import crypto
+    cases = []
+    n = 2 if ctx.quick() else 8
+    combos = [(p, i, kl, dh) for p in PRF_IDS for i in INTEG_IDS for kl in KEYLENS for dh in (19, 20, 21, 14)]
+    ctx.rng.shuffle(combos)
+    with mock.patch.object(crypto.Prf, 'prf', lambda self, key, data: toy_prf(self.hash_size, key, data)):
+        for (p, i, kl, dh) in combos[:n]:
+            obs = run_handshake(ctx, p, i, kl, dh, child_dh=ctx.rng.choice((None, 19)), proto=ctx.rng.choice((2, 3)))
+            for o in obs:
+                cases.append(o)
+    return cases
+
+
+PRF_NAME = {2: 'sha1', 5: 'sha256', 7: 'sha512'}
+INTEG_NAME = {2: 'sha1', 12: 'sha256', 14: 'sha512'}
+
+
+def run_handshake(ctx, p, i, kl, dh, child_dh=None, proto=3, rekey_ike=True):
+    """Drives IKE_SA_INIT, IKE_AUTH, CREATE_CHILD_SA (new CHILD_SA) and an IKE_SA rekey between two real IkeSa
+    objects.  Returns observations: (model input for KeysRun.run, kind, expected model output, facts) where facts
+    are the raw values (nonces, SPIs, secrets, suite) an independent implementation needs."""
+    import crypto
+    import ikesa
+    import xfrm
+    from ipaddress import ip_address, ip_network
+    from configuration import Configuration
+    from message import Message, Payload, TrafficSelector
+    import logging
+    logging.indent = 2
+    ip1, ip2 = ip_address('192.168.0.1'), ip_address('192.168.0.2')
+    prot = {'index': 1, 'ip_proto': 'tcp', 'mode': 'transport', 'lifetime': 5, 'peer_port': 0,
+            'ipsec_proto': 'esp' if proto == 3 else 'ah', 'encr': ['aes%d' % kl], 'integ': [INTEG_NAME[i]]}
+    if child_dh:
+        prot['dh'] = [str(child_dh)]
+    base = {'dh': [str(dh)], 'integ': [INTEG_NAME[i]], 'prf': [PRF_NAME[p]], 'encr': ['aes%d' % kl]}
+    conf = {'alice': dict(base, my_addr=str(ip1), peer_addr=str(ip2), my_auth={'id': 'alice', 'psk': 'a'},
+                          peer_auth={'id': 'bob', 'psk': 'b'}, protect=[dict(prot)]),
+            'bob': dict(base, my_addr=str(ip2), peer_addr=str(ip1), my_auth={'id': 'bob', 'psk': 'b'},
+                        peer_auth={'id': 'alice', 'psk': 'a'}, protect=[dict(prot, index=2, peer_port=23)])}
+    secrets = []     # every DH secret computed, in order, with the object that computed it
+    child_keyrings = []
+
+    def wrap(cls):
+        orig = cls.compute_secret
+
+        def compute_secret(self, peer_public_key):
+            orig(self, peer_public_key)
+            secrets.append((self, bytes(self.shared_secret)))
+        return mock.patch.object(cls, 'compute_secret', compute_secret)
+
+    def create_child_sa(ike_sa, child_sa, keyring, is_initiator):
+        child_keyrings.append((ike_sa, is_initiator, _kr(keyring), child_sa.proposal.protocol_id))
+
+    obs = []
+    with mock.patch('xfrm.Xfrm.send_recv'), wrap(crypto.MODPDH), wrap(crypto.ECDH), \
+            mock.patch('xfrm.Xfrm.create_child_sa', create_child_sa):
+        cfg = Configuration([ip1, ip2], conf)
+        a = ikesa.IkeSa(True, b'\0' * 8, cfg.get_ike_configuration(ip1, ip2), ip1, ip2)
+        b = ikesa.IkeSa(False, a.my_spi, cfg.get_ike_configuration(ip2, ip1), ip2, ip1)
+        tsi = TrafficSelector.from_network(ip_network('192.168.0.1/32'), 8765, TrafficSelector.IpProtocol.TCP)
+        tsr = TrafficSelector.from_network(ip_network('192.168.0.2/32'), 23, TrafficSelector.IpProtocol.TCP)
+        m1 = a.process_acquire(tsi, tsr, 1)
+        m2 = b.process_message(m1)
+        m3 = a.process_message(m2)
+        m4 = b.process_message(m3)
+        end = a.process_message(m4)
+        if end is not None or a.state != ikesa.IkeSa.State.ESTABLISHED or b.state != ikesa.IkeSa.State.ESTABLISHED \
+                or len(child_keyrings) != 2:
+            raise RuntimeError(f'handshake did not complete for suite {(p, i, kl, dh)}: {a.state} {b.state}')
+        q1, q2 = Message.parse(m1), Message.parse(m2)
+        ni = bytes(q1.get_payload(Payload.Type.NONCE).nonce)
+        nr = bytes(q2.get_payload(Payload.Type.NONCE).nonce)
+        spi_i, spi_r = bytes(q2.spi_i), bytes(q2.spi_r)
+        g_b, g_a = secrets[0][1], secrets[1][1]     # responder computes first
+        suite = [p, i, ENCR_AES_CBC, kl]
+        facts = dict(suite=suite, ni=ni, nr=nr, spi_i=spi_i, spi_r=spi_r, g=g_a, old=None, dh=dh)
+        if g_a != g_b:
+            raise RuntimeError('the two peers computed different DH secrets')
+        obs.append((['ike', suite + [1, 2, ni, nr, spi_i, spi_r, g_a, None]], 'e2e-ike-initiator',
+                    [_kr(a.ike_sa_keyring), _cr(a.my_crypto), _cr(a.peer_crypto)], facts))
+        obs.append((['ike', suite + [0, 1, ni, nr, spi_r, spi_i, g_b, None]], 'e2e-ike-responder',
+                    [_kr(b.ike_sa_keyring), _cr(b.my_crypto), _cr(b.peer_crypto)], facts))
+        # piggy-backed CHILD_SA: nonces of IKE_SA_INIT, never a DH secret
+        skd = bytes(a.ike_sa_keyring.sk_d)
+        csuite = [p, proto, i, ENCR_AES_CBC, kl]
+        cf = dict(prf=p, proto=proto, integ=i, kl=kl, ni=ni, nr=nr, g=None, skd=skd)
+        for (sa, is_init, kr, pr) in child_keyrings:
+            role = 2 if sa is a else 1
+            obs.append((['child', csuite + [role, ni, nr, None, skd]], 'e2e-child-auth', kr, cf))
+        # CREATE_CHILD_SA for a second CHILD_SA (with KE payloads when the protect entry names a DH group)
+        del child_keyrings[:]
+        nsec = len(secrets)
+        c1 = a.process_acquire(tsi, tsr, 1)
+        c2 = b.process_message(c1)
+        end = a.process_message(c2)
+        if end is not None or len(child_keyrings) != 2:
+            raise RuntimeError(f'CREATE_CHILD_SA did not complete for suite {(p, i, kl, dh, child_dh)}')
+        r1 = Message.parse(c1, crypto=a.my_crypto)
+        r2 = Message.parse(c2, crypto=b.my_crypto)
+        cni = bytes(r1.get_payload(Payload.Type.NONCE, True).nonce)
+        cnr = bytes(r2.get_payload(Payload.Type.NONCE, True).nonce)
+        cg = None
+        if child_dh:
+            if len(secrets) != nsec + 2 or secrets[nsec][1] != secrets[nsec + 1][1]:
+                raise RuntimeError('CREATE_CHILD_SA with KE: DH secrets missing or different')
+            cg = secrets[nsec][1]
+        elif len(secrets) != nsec:
+            raise RuntimeError('CREATE_CHILD_SA without DH transform computed a DH secret')
+        cf = dict(prf=p, proto=proto, integ=i, kl=kl, ni=cni, nr=cnr, g=cg, skd=skd)
+        for (sa, is_init, kr, pr) in child_keyrings:
+            role = 2 if sa is a else 1
+            obs.append((['child', csuite + [role, cni, cnr, cg, skd]], 'e2e-child-create', kr, cf))
+        # IKE_SA rekey initiated by the original responder (roles swap: b is the initiator of the new IKE_SA)
+        if rekey_ike:
+            nsec = len(secrets)
+            b.rekey_ike_sa_at = 0
+            k1 = b.check_rekey_ike_sa_timer()
+            k2 = a.process_message(k1)
+            k3 = b.process_message(k2)
+            if b.new_ike_sa is None or a.new_ike_sa is None or b.new_ike_sa.ike_sa_keyring is None \
+                    or a.new_ike_sa.ike_sa_keyring is None or len(secrets) != nsec + 2:
+                raise RuntimeError(f'IKE_SA rekey did not complete for suite {(p, i, kl, dh)}')
+            r1 = Message.parse(k1, crypto=b.my_crypto)
+            r2 = Message.parse(k2, crypto=a.my_crypto)
+            kni = bytes(r1.get_payload(Payload.Type.NONCE, True).nonce)
+            knr = bytes(r2.get_payload(Payload.Type.NONCE, True).nonce)
+            nspi_i = bytes(r1.get_payload(Payload.Type.SA, True).proposals[0].spi)
+            nspi_r = bytes(r2.get_payload(Payload.Type.SA, True).proposals[0].spi)
+            kg = secrets[nsec][1]
+            if kg != secrets[nsec + 1][1]:
+                raise RuntimeError('rekey: the two peers computed different DH secrets')
+            facts = dict(suite=suite, ni=kni, nr=knr, spi_i=nspi_i, spi_r=nspi_r, g=kg, old=skd, dh=dh)
+            nb, na = b.new_ike_sa, a.new_ike_sa
+            obs.append((['ike', suite + [1, 2, kni, knr, nspi_i, nspi_r, kg, skd]], 'e2e-rekey-initiator',
+                        [_kr(nb.ike_sa_keyring), _cr(nb.my_crypto), _cr(nb.peer_crypto)], facts))
+            obs.append((['ike', suite + [0, 1, kni, knr, nspi_r, nspi_i, kg, skd]], 'e2e-rekey-responder',
+                        [_kr(na.ike_sa_keyring), _cr(na.my_crypto), _cr(na.peer_crypto)], facts))
+    return obs
+
+
+def correspond(ctx):
+    fails = []
+    raw = gen_cases(ctx)
+    cases = []
+    meta = []
+    for inp, kind, a in raw:
+        out = run_impl(kind, a)
+        cases.append((inp, out))
+        meta.append((kind, a))
+        nontrivial = not (isinstance(out, list) and out[:1] == ['raise'])
+        ctx.case([kind, repr(a)], nontrivial=nontrivial, sample=(kind in ('ike', 'child') and len(ctx.samples) < 3))
+        ctx.count(kind + ('' if nontrivial else ':raises'))
+    for inp, kind, out, facts in handshake_cases(ctx):
+        cases.append((inp, out))
+        meta.append((kind, inp))
+        ctx.case([kind, repr(inp)], nontrivial=True)
+        ctx.count(kind)
+    bad = core.run_cases(ctx, CLUSTER, 'From Keys Require Import KeysRun.', 'run', cases, shard=150)
+    for gi, model_out in bad[:10]:
+        kind, a = meta[gi]
+        fails.append(Failure('correspondence', 'keys:' + kind,
+                             f'{kind}{a!r}: implementation {cases[gi][1]!r} but model {model_out[-600:]}',
+                             {'kind': 'correspondence', 'case': repr(cases[gi][0])}))
+    # the closed theorems must print no assumptions at all (the axiom whitelist is meant for C04_primes.v only)
+    rc, out = core.run(['coqc'] + core.coq_flags(CLUSTER) + ['Props/C04.v'], cwd=core.cluster_dir(CLUSTER), timeout=300)
+    if rc != 0 or 'Axioms:' in out or out.count('Closed under the global context') < 14:
+        fails.append(Failure('proof', 'proof:closedness', 'a theorem of Props/C04.v is not closed under the global '
+                             'context: ' + out[-400:], {'kind': 'closedness'}))
+    return fails
+
+
+
+# =============================================================================================
+# oracle: the property on the real code, against an independent implementation of the RFCs
+
+# RFC 7296 3.3.2 / RFC 4868 / RFC 2404 / RFC 3602 (independent copy of the numbers; octets)
+RFC_PRF = {2: ('sha1', 20), 5: ('sha256', 32), 7: ('sha512', 64)}
+RFC_INTEG = {2: ('sha1', 20, 12), 12: ('sha256', 32, 16), 14: ('sha512', 64, 32)}
+RFC_AES_BLOCK = 16
+# RFC 3526: group -> (bits, constant c);  RFC 5903: group -> (curve, bits, octets per coordinate)
+RFC3526 = {14: (2048, 124476), 15: (3072, 1690314), 16: (4096, 240904), 17: (6144, 929484), 18: (8192, 4743158)}
+RFC5903 = {19: ('secp256r1', 256, 32), 20: ('secp384r1', 384, 48), 21: ('secp521r1', 521, 66)}
+
+
+def rfc_T(prf, K, S):
+    """T1, T2, ... of RFC 7296 2.13"""
+    prev = b''
+    for n in range(1, 256):
+        prev = prf(K, prev + S + bytes([n]))
+        yield prev
+
+
+def rfc_prfplus(hashname, K, S, n):
+    def prf(k, d):
+        return hmac.new(k, d, hashname).digest()
+    out = b''
+    for t in rfc_T(prf, K, S):
+        if len(out) >= n:
+            break
+        out += t
+    if len(out) < n:
+        raise ValueError('prf+ is not defined beyond 255 blocks')
+    return out[:n]
+
+
+def rfc_ike_keys(p, i, kl, ni, nr, spi_i, spi_r, g, old_sk_d=None):
+    h, pl = RFC_PRF[p]
+    il = RFC_INTEG[i][1]
+    el = kl // 8
+    if old_sk_d is None:
+        skeyseed = hmac.new(ni + nr, g, h).digest()
+    else:
+        skeyseed = hmac.new(old_sk_d, g + ni + nr, h).digest()
+    stream = rfc_prfplus(h, skeyseed, ni + nr + spi_i + spi_r, 3 * pl + 2 * il + 2 * el)
+    keys = {}
+    off = 0
+    for name, ln in (('SK_d', pl), ('SK_ai', il), ('SK_ar', il), ('SK_ei', el), ('SK_er', el), ('SK_pi', pl),
+                     ('SK_pr', pl)):
+        keys[name] = stream[off:off + ln]
+        off += ln
+    return keys
+
+
+def rfc_child_keys(p, proto, i, kl, sk_d, ni, nr, g=None):
+    h = RFC_PRF[p][0]
+    il = RFC_INTEG[i][1]
+    el = kl // 8 if proto == 3 else 0
+    keymat = rfc_prfplus(h, sk_d, (g or b'') + ni + nr, 2 * el + 2 * il)
+    # initiator->responder SA first; encryption key before integrity key
+    return {'ei': keymat[:el], 'ai': keymat[el:el + il], 'er': keymat[el + il:2 * el + il],
+            'ar': keymat[2 * el + il:2 * el + 2 * il]}
+
+
+def keyring_of_ike(k):
+    return [k['SK_d'], k['SK_ai'], k['SK_ar'], k['SK_ei'], k['SK_er'], k['SK_pi'], k['SK_pr']]
+
+
+def crypto_of_ike(k, initiator):
+    i = [k['SK_ei'], k['SK_ai'], k['SK_pi']]
+    r = [k['SK_er'], k['SK_ar'], k['SK_pr']]
+    return [i, r] if initiator else [r, i]
+
+
+def keyring_of_child(k):
+    return [None, k['ai'], k['ar'], k['ei'], k['er'], None, None]
+
+
+def pi_floor(bits):
+    """floor(pi * 2^bits) with Python integers: Machin's formula, 64 guard bits, result certified by the guard"""
+    guard = 64
+    one = 1 << (bits + guard)
+
+    def arctan_inv(x):
+        total = term = one // x
+        x2 = x * x
+        n = 1
+        while term:
+            term //= x2
+            n += 2
+            total += -(term // n) if (n // 2) % 2 else term // n
+        return total
+    v = 16 * arctan_inv(5) - 4 * arctan_inv(239)
+    low = v & ((1 << guard) - 1)
+    # truncation errors are far below 2^20 units of the guarded value
+    if low < (1 << 20) or low > (1 << guard) - (1 << 20):
+        raise RuntimeError('pi_floor: guard bits inconclusive')
+    return v >> guard
+
+
+def rfc3526_prime(n, c):
+    return 2 ** n - 2 ** (n - 64) - 1 + 2 ** 64 * (pi_floor(n - 130) + c)
+
+
+def hexb(b):
+    return None if b is None else bytes(b).hex()
+
+
+def check_prfplus(p, key, seed, n):
+    h, hl = RFC_PRF[p]
+    got = impl_prfplus(p, key, seed, n)
+    want = rfc_prfplus(h, key, seed, n)
+    if got != want:
+        return Failure('property', 'keys:prfplus-differs-from-rfc',
+                       f'Prf({h}).prfplus(key={key.hex()}, seed={seed.hex()}, size={n}) = '
+                       f'{got.hex() if isinstance(got, bytes) else got} but RFC 7296 2.13 gives {want.hex()}',
+                       {'kind': 'prfplus', 'p': p, 'key': key.hex(), 'seed': seed.hex(), 'n': n})
+    return None
+
+
+def check_ike(p, i, kl, ini, ni, nr, si, sr, g, old):
+    got = impl_ike(p, i, ENCR_AES_CBC, kl, ini, ni, nr, si, sr, g, old)
+    k = rfc_ike_keys(p, i, kl, ni, nr, si, sr, g, old)
+    want = [keyring_of_ike(k)] + crypto_of_ike(k, bool(ini))
+    if got != want:
+        which = 'rekeyed ' if old is not None else ''
+        return Failure('property', 'keys:ike-keys-differ-from-rfc',
+                       f'{which}IKE_SA keys for suite prf={p} integ={i} aes{kl} initiator={ini}: '
+                       f'implementation {_show(got)} but RFC 7296 2.14/2.18 gives {_show(want)}',
+                       {'kind': 'ike', 'p': p, 'i': i, 'kl': kl, 'ini': ini, 'ni': ni.hex(), 'nr': nr.hex(),
+                        'si': si.hex(), 'sr': sr.hex(), 'g': g.hex(), 'old': hexb(old)})
+    return None
+
+
+def check_child(p, proto, i, kl, skd, ni, nr, g):
+    got = impl_child(p, proto, i, ENCR_AES_CBC, kl, (g or b'') + ni + nr, skd)
+    want = keyring_of_child(rfc_child_keys(p, proto, i, kl or 0, skd, ni, nr, g))
+    if got != want:
+        return Failure('property', 'keys:child-keymat-differs-from-rfc',
+                       f'CHILD_SA keys (ike prf={p}, proto={proto}, integ={i}, keylen={kl}, pfs={g is not None}): '
+                       f'implementation {_show(got)} but RFC 7296 2.17 gives {_show(want)}',
+                       {'kind': 'child', 'p': p, 'proto': proto, 'i': i, 'kl': kl, 'skd': skd.hex(), 'ni': ni.hex(),
+                        'nr': nr.hex(), 'g': hexb(g)})
+    return None
+
+
+def _show(x):
+    if isinstance(x, (bytes, bytearray)):
+        return bytes(x).hex()[:24] + '..'
+    if isinstance(x, (list, tuple)):
+        return '[' + ','.join(_show(y) for y in x) + ']'
+    return repr(x)
+
+
+def check_sizes():
+    fails = []
+    for p, (h, pl) in RFC_PRF.items():
+        for i, (_, ikl, icv) in RFC_INTEG.items():
+            for kl in KEYLENS:
+                got = impl_sizes(p, i, ENCR_AES_CBC, kl)
+                want = [pl, pl, ikl, icv, kl // 8, RFC_AES_BLOCK]
+                if got != want:
+                    fails.append(Failure('property', 'keys:sizes-differ-from-rfc',
+                                         f'sizes of suite prf={p} integ={i} aes{kl}: {got} but the RFCs give {want}',
+                                         {'kind': 'sizes', 'p': p, 'i': i, 'kl': kl}))
+    return fails
+
+
+def check_primes():
+    import crypto
+    from message import Transform
+    fails = []
+    table = {int(k): v for k, v in crypto.MODPDH._group_dict.items()}
+    if sorted(table) != sorted(RFC3526):
+        fails.append(Failure('property', 'keys:modp-group-set', f'MODP groups {sorted(table)} != {sorted(RFC3526)}',
+                             {'kind': 'primes'}))
+    for g, (n, c) in RFC3526.items():
+        if g not in table:
+            continue
+        want = '%X' % rfc3526_prime(n, c)
+        got = table[g].upper()
+        if got != want:
+            pos = [k for k in range(min(len(got), len(want))) if got[k] != want[k]]
+            where = (f'hex digit(s) at position(s) {pos[:8]} (0 = most significant): table has '
+                     f'{"".join(got[k] for k in pos[:8])!r}, RFC 3526 has {"".join(want[k] for k in pos[:8])!r}'
+                     if len(got) == len(want) else f'length {len(got)} instead of {len(want)} hex digits')
+            fails.append(Failure('property', 'keys:modp-prime-differs-from-rfc3526',
+                                 f'MODP group {g} ({n} bits): {where}', {'kind': 'primes', 'group': g}))
+    return fails
+
+
+def check_dh_group(ctx, g, rounds=1):
+    import warnings
+    import crypto
+    fails = []
+    with warnings.catch_warnings():
+        warnings.simplefilter('ignore')
+        for _ in range(rounds):
+            a, b = crypto.DiffieHellman.from_group(g), crypto.DiffieHellman.from_group(g)
+            a.compute_secret(b.public_key)
+            b.compute_secret(a.public_key)
+            if g in RFC3526:
+                width = RFC3526[g][0] // 8
+                pubw, secw = width, width
+                ok_cls = isinstance(a, crypto.MODPDH)
+                p = int(crypto.MODPDH._group_dict[g], 16)
+                y = int.from_bytes(a.public_key, 'big')
+                sane = 1 < y < p - 1 and y.to_bytes(width, 'big') == a.public_key and a._pn.g == 2 and a._pn.p == p
+            else:
+                name, bits, w = RFC5903[g]
+                pubw, secw = 2 * w, w
+                ok_cls = isinstance(a, crypto.ECDH)
+                curve = a._private_key.curve
+                x = int.from_bytes(a.public_key[:w], 'big')
+                y = int.from_bytes(a.public_key[w:], 'big')
+                pn = a._private_key.public_key().public_numbers()
+                sane = curve.name == name and curve.key_size == bits and (x, y) == (pn.x, pn.y) and a.key_len == w
+            probs = []
+            if not ok_cls:
+                probs.append(f'class {type(a).__name__}')
+            if len(a.public_key) != pubw or len(b.public_key) != pubw:
+                probs.append(f'public value of {len(a.public_key)} octets, fixed width is {pubw}')
+            if a.shared_secret != b.shared_secret:
+                probs.append('the two sides computed different secrets')
+            if len(a.shared_secret) != secw:
+                probs.append(f'shared secret of {len(a.shared_secret)} octets, fixed width is {secw}')
+            if not sane:
+                probs.append('public value is not the fixed-width big-endian encoding of the public number(s) in the '
+                             'published group')
+            ctx.case(['dh', g, len(a.public_key), len(a.shared_secret)], nontrivial=True)
+            ctx.count('dh-group-%d' % g)
+            if a.shared_secret[:1] == b'\0':
+                ctx.count('dh-secret-with-leading-zero')
+            if a.public_key[:1] == b'\0':
+                ctx.count('dh-public-with-leading-zero')
+            if probs:
+                fails.append(Failure('property', 'keys:dh-public-value', f'group {g}: ' + '; '.join(probs),
+                                     {'kind': 'dh', 'group': g}))
+                return fails
+    return fails
+
+
+def check_e2e(ctx, p, i, kl, dh, child_dh, proto):
+    """a real handshake with the real HMAC; every key the daemon derived against the independent implementation"""
+    fails = []
+    try:
+        obs = run_handshake(ctx, p, i, kl, dh, child_dh=child_dh, proto=proto)
+    except Exception:
+        import traceback
+        return [Failure('property', 'keys:handshake-failed', traceback.format_exc()[-800:],
+                        {'kind': 'e2e', 'p': p, 'i': i, 'kl': kl, 'dh': dh, 'child_dh': child_dh, 'proto': proto})]
+    rep = {'kind': 'e2e', 'p': p, 'i': i, 'kl': kl, 'dh': dh, 'child_dh': child_dh, 'proto': proto}
+    for inp, kind, got, f in obs:
+        ctx.case([kind, repr(inp)], nontrivial=True)
+        ctx.count('real-' + kind)
+        if kind.startswith('e2e-ike') or kind.startswith('e2e-rekey'):
+            k = rfc_ike_keys(p, i, kl, f['ni'], f['nr'], f['spi_i'], f['spi_r'], f['g'], f['old'])
+            want = [keyring_of_ike(k)] + crypto_of_ike(k, kind.endswith('initiator'))
+            width = RFC3526[dh][0] // 8 if dh in RFC3526 else RFC5903[dh][2]
+            if len(f['g']) != width:
+                fails.append(Failure('property', 'keys:dh-public-value',
+                                     f'{kind}: DH secret of {len(f["g"])} octets in group {dh}', rep))
+        else:
+            want = keyring_of_child(rfc_child_keys(f['prf'], f['proto'], f['integ'], f['kl'], f['skd'], f['ni'],
+                                                   f['nr'], f['g']))
+        if got != want:
+            fails.append(Failure('property', 'keys:handshake-keys-differ-from-rfc',
+                                 f'{kind} (prf={p} integ={i} aes{kl} dh={dh} child_dh={child_dh} proto={proto}): '
+                                 f'daemon derived {_show(got)} but the RFC gives {_show(want)} from the nonces, SPIs '
+                                 f'and DH secret of the exchange', rep))
+    return fails
+
+
+def oracle(ctx, deep):
+    import warnings
+    warnings.simplefilter('ignore')
+    rng = ctx.rng
+    fails = []
+    # 1. prf+ with the real HMACs, all lengths
+    lens = list(range(1, 421)) if deep else sorted(set(list(range(1, 130)) + rng.sample(range(130, 421), 40)))
+    for p in PRF_IDS:
+        hl = RFC_PRF[p][1]
+        for n in lens + [255 * hl]:
+            key = rnd_bytes(rng, rng.choice((1, 20, 32, 64, 65, 129)))
+            seed = rnd_bytes(rng, rng.randrange(0, 600))
+            f = check_prfplus(p, key, seed, n)
+            ctx.case(['oracle-prfplus', p, n], nontrivial=True)
+            ctx.count('oracle-prfplus')
+            if f:
+                fails.append(f)
+                break
+        # beyond the RFC's limit the code must not deliver bytes
+        r = impl_prfplus(p, b'k', b's', 255 * hl + 1)
+        if r != ['raise', 'OverflowError']:
+            fails.append(Failure('property', 'keys:prfplus-beyond-255-blocks',
+                                 f'prfplus of {255 * hl + 1} octets returned {_show(r)}', {'kind': 'prfplus-limit', 'p': p}))
+    # 2./3. the two key-material functions, every suite
+    reps = 4 if deep else 1
+    for _ in range(reps):
+        for p in PRF_IDS:
+            for i in INTEG_IDS:
+                for kl in KEYLENS:
+                    for rekey in (False, True):
+                        ni, nr = rnd_nonce(rng), rnd_nonce(rng)
+                        old = rnd_bytes(rng, RFC_PRF[p][1]) if rekey else None
+                        f = check_ike(p, i, kl, rng.choice((0, 1)), ni, nr, rnd_bytes(rng, 8), rnd_bytes(rng, 8),
+                                      rnd_secret(rng), old)
+                        ctx.case(['oracle-ike', p, i, kl, rekey, ni.hex()], nontrivial=True)
+                        ctx.count('oracle-ike')
+                        if f:
+                            fails.append(f)
+                for proto, kl in ((3, 128), (3, 256), (2, None)):
+                    for pfs in (False, True):
+                        ni, nr = rnd_nonce(rng), rnd_nonce(rng)
+                        f = check_child(p, proto, i, kl, rnd_bytes(rng, RFC_PRF[p][1]), ni, nr,
+                                        rnd_secret(rng) if pfs else None)
+                        ctx.case(['oracle-child', p, proto, i, kl, pfs, ni.hex()], nontrivial=True)
+                        ctx.count('oracle-child')
+                        if f:
+                            fails.append(f)
+    fails += check_sizes()
+    # 4. groups
+    fails += check_primes()
+    for g in sorted(set(RFC3526) | set(RFC5903)):
+        fails += check_dh_group(ctx, g, rounds=(40 if deep and g in (14, 19) else 2))
+    import crypto
+    got = {int(k): (v.name, v.key_size) for k, v in crypto.ECDH._ec_groups.items()}
+    if got != {g: (v[0], v[1]) for g, v in RFC5903.items()}:
+        fails.append(Failure('property', 'keys:ec-groups', f'ECDH groups {got}', {'kind': 'ec'}))
+    # 5. end to end: the keys the daemon really installs, for all 8 DH groups
+    groups = sorted(set(RFC3526) | set(RFC5903))
+    combos = []
+    for k, dh in enumerate(groups):
+        p, i, kl = PRF_IDS[k % 3], INTEG_IDS[(k // 3 + k) % 3], KEYLENS[k % 2]
+        combos.append((p, i, kl, dh, (None, 14, 19)[k % 3], (3, 2)[k % 2]))
+    if deep:
+        for p in PRF_IDS:
+            for i in INTEG_IDS:
+                for kl in KEYLENS:
+                    combos.append((p, i, kl, rng.choice(groups), rng.choice((None, 14, 20, 21)), rng.choice((2, 3))))
+    for c in combos:
+        fails += check_e2e(ctx, *c)
+    return fails[:20]
+
+
+def replay(ctx, obj):
+    import warnings
+    warnings.simplefilter('ignore')
+    k = obj.get('kind')
+    bx = (lambda h: None if h is None else bytes.fromhex(h))
+    out = []
+    if k == 'prfplus':
+        out = [check_prfplus(obj['p'], bx(obj['key']), bx(obj['seed']), obj['n'])]
+    elif k == 'prfplus-limit':
+        hl = RFC_PRF[obj['p']][1]
+        r = impl_prfplus(obj['p'], b'k', b's', 255 * hl + 1)
+        if r != ['raise', 'OverflowError']:
+            out = [Failure('property', 'keys:prfplus-beyond-255-blocks', f'returned {_show(r)}', obj)]
+    elif k == 'ike':
+        out = [check_ike(obj['p'], obj['i'], obj['kl'], obj['ini'], bx(obj['ni']), bx(obj['nr']), bx(obj['si']),
+                         bx(obj['sr']), bx(obj['g']), bx(obj['old']))]
+    elif k == 'child':
+        out = [check_child(obj['p'], obj['proto'], obj['i'], obj['kl'], bx(obj['skd']), bx(obj['ni']), bx(obj['nr']),
+                           bx(obj['g']))]
+    elif k == 'sizes':
+        out = check_sizes()
+    elif k == 'primes':
+        out = check_primes()
+    elif k == 'dh':
+        out = check_dh_group(ctx, obj['group'], rounds=5)
+    elif k == 'ec':
+        import crypto
+        got = {int(g): (v.name, v.key_size) for g, v in crypto.ECDH._ec_groups.items()}
+        if got != {g: (v[0], v[1]) for g, v in RFC5903.items()}:
+            out = [Failure('property', 'keys:ec-groups', f'ECDH groups {got}', obj)]
+    elif k == 'e2e':
+        out = check_e2e(ctx, obj['p'], obj['i'], obj['kl'], obj['dh'], obj['child_dh'], obj['proto'])
+    return [f for f in out if f]
+
+
+# Print Assumptions of C04_modp_primes (Props/C04_primes.v) only; every theorem of Props/C04.v prints
+# "Closed under the global context" (re-checked in correspond()).  'Axioms' is the header line of the listing.
+ALLOWED_AXIOMS = (
+    r'Axioms',
+    r'ClassicalDedekindReals\.sig_forall_dec', r'ClassicalDedekindReals\.sig_not_dec',
+    r'Classical_Prop\.classic',
+    r'FunctionalExtensionality\.functional_extensionality_dep',
+    r'PrimInt63\.\w+',                                   # primitive 63-bit integers (type and operations)
+    r'Uint63\.\w+_spec', r'Uint63\.of_to_Z', r'Uint63\.eqb_refl', r'Uint63\.eqb_correct',
+)
+
 CHECK = core.Check(
-    'C04', CLUSTER, ['Props/C04.v', 'Props/C04_primes.v'], translate=translate,
-    deps=('lib',),
+    'C04', CLUSTER, ['Props/C04.v', 'Props/C04_primes.v'], translate=translate, correspond=correspond, oracle=oracle, replay=replay,
+    deps=('lib',), allowed_axioms=ALLOWED_AXIOMS,
 )
